@@ -285,7 +285,13 @@ def default_mode(ctx, prog):
     same = w is not None and w[0] == 'call'
     for i, direct in ini:
         if direct and _enc_of(P, i.ops[0]) != w:
-            same = False
+            # or: the object initialised is the one stored into wblk->enc
+            e = strip_casts(P.expr(i.ops[0]))
+            stored = [st for st in f.insns() if st.op == 'store' and strip_casts(P.expr(st.ops[0])) == e and
+                      path_key(P.addr(st.ops[1])[2]).endswith('.enc') and P.addr(st.ops[1])[1][0] == 'V' and
+                      strip_casts(P.addr(st.ops[1])[1][1]) == w]
+            if not stored:
+                same = False
     ctx.ob('C04.feed', 'do_collect(): the encoder packed into is the one allocated and initialised in this visit', f.loc(c),
            same, render(strip_casts(P.expr(c.ops[0]))))
     rets = [b.name for b in f.blocks.values() if b.term.op == 'ret']
